@@ -66,6 +66,13 @@ func (c *vltCase) acct(i int) int { return i + 2 }
 
 // ---------- observation ----------
 func (c *vltCase) obs() {
+	c.obsBody()
+	c.tr.p("eo")
+}
+
+// obsBody: the projection without the end marker (harness/c01_life_test.go appends the records of
+// liquidationsV2 / auctionsV2 / esm before closing the observation)
+func (c *vltCase) obsBody() {
 	a, ctx, tr := c.a, c.ctx, c.tr
 	tr.p("t %d", c.now.Unix())
 	accts := []sdk.AccAddress{modAddr("vaultV1"), modAddr("collectorV1")}
@@ -118,7 +125,6 @@ func (c *vltCase) obs() {
 		tw, found := a.MarketKeeper.GetTwa(ctx, as.id)
 		tr.p("pr %d %s %d", as.id, b2s(found && tw.IsPriceActive), tw.Twa)
 	}
-	tr.p("eo")
 }
 
 // dry run of rewards.CalculateVaultInterest with the arguments the handler will use: the delta of
